@@ -164,7 +164,7 @@ def run(rep, work, tier, seed):
                          ("never_completes", ["StreamScopeCompletes"])):
             leg_mutant(rep, work, SPEC, f"mutant_{bug}", cfg_text(dict(MaxItems=2, Dev=False, Bug=bug), invariants=INVS), inv)
     leg_r(rep, work, SPEC, f"conf_{tier}", cfg_text(dict(MaxItems=mi, Dev=True, Bug="none"), invariants=INVS),
-          StreamsDriver, kf_text=KF_TEXT, kf_classify=kf_classify)
+          StreamsDriver, kf_text=KF_TEXT, kf_classify=kf_classify, world=True)
     rep.assumptions += [
         "the generator double yields, as each item, what it observes itself (state lookup, metrics scope), optionally "
         "from inside a nested scope; consumption from 'other tasks' pulls every item from a fresh task",
